@@ -677,8 +677,8 @@ pub fn prop() -> Prop {
         describe,
         rule: "a generated valid file plus one semantic corruption whose outcome is known by construction, under explicit and automatic format selection, file and stdin, with and without -o. JSON: truncation, removed brace/quote, trailing garbage, dropped prob/state/player_one/infoset/actions/outcomes, wrong types, unknown or double variant tag, non-finite payoff literal, non-positive probability, empty actions/outcomes. Gambit: truncation, header damage, three players, player number 3, chance probabilities not summing to one, three payoffs, payoffs on the null outcome, a leaf payoff moved beyond the constant-sum tolerance by factors {1.01, 2, 100} (controls at 0.5 and 0.99 must be accepted), 1e400 payoffs, two infosets under one name (explicit, or the number string of an unnamed one). Both: any contract violation operator of C11 carried through the format. Oracle: exit status != 0, empty stdout, no -o file, stderr naming a keyword of the expected category (loose alternatives; auto-detection may report its own category). Non-trivial = the corruption is not at the first node; distinct by file text.",
         max_len: 900,
-        cases_quick: 8_000,
-        cases_thorough: 120_000,
+        cases_quick: 120_000,
+        cases_thorough: 1_200_000,
         assumptions: &[
             "only corruptions whose invalidity follows from the README / DSL are used; byte flips with unknown effect are not",
             "accepted controls are checked for player one's numbers only (within the tolerance the file is not exactly constant-sum)",
